@@ -48,8 +48,11 @@ _IDENT_CACHE: set | None = None
 
 
 def rule_named_identifiers() -> set:
-    """every identifier-like word that occurs in the rules' own source (code or strings): a function whose name is NOT among
-    them cannot be an anchor of any rule, so expanding calls to it in place changes nothing a rule looks for by name"""
+    """every identifier-like word that occurs in a STRING LITERAL of the rules' own code (docstrings and comments excluded): a
+    function whose name is NOT among them cannot be an anchor of any rule — rules name library functions only in strings
+    (`f.attr == "remove_child"`, tables of names, patterns) — so expanding calls to it in place changes nothing a rule looks for
+    by name.  Words of comments / docstrings / the rules' own variable names do not count: a helper name that a corpus
+    refactoring introduces and that someone mentions in a comment must not change the views of every property."""
     global _IDENT_CACHE
     if _IDENT_CACHE is None:
         words = set()
@@ -58,7 +61,15 @@ def rule_named_identifiers() -> set:
             for f in os.listdir(base):
                 if f.endswith(".py") and not (base != here and f in ("normalize.py",)):
                     src = open(os.path.join(base, f), encoding="utf-8").read()
-                    words |= set(re.findall(r"[A-Za-z_][A-Za-z0-9_]*", src))
+                    try:
+                        tree = ast.parse(src)
+                    except SyntaxError:
+                        words |= set(re.findall(r"[A-Za-z_][A-Za-z0-9_]*", src))
+                        continue
+                    doc = {id(n.value) for n in ast.walk(tree) if isinstance(n, ast.Expr) and isinstance(n.value, ast.Constant) and isinstance(n.value.value, str)}
+                    for n in ast.walk(tree):
+                        if isinstance(n, ast.Constant) and isinstance(n.value, str) and id(n) not in doc:
+                            words |= set(re.findall(r"[A-Za-z_][A-Za-z0-9_]*", n.value))
         _IDENT_CACHE = words
     return _IDENT_CACHE
 
